@@ -37,6 +37,8 @@ def bfs(ctx, configs, ops_fn, step, depth, section=None, horizon=120, init=None)
     for d in range(1, depth + 1):
         tasks = []
         for (i, hist) in frontier:
+            if d > configs[i].get("_depth", depth):
+                continue
             for op in ops_fn(configs[i], hist):
                 tasks.append((i, hist + (op,)))
         if not tasks:
